@@ -1,24 +1,13 @@
+//go:build !race
+
 package mc
 
 import (
-	"bytes"
-	"runtime"
-	"strconv"
 	"unsafe"
 )
 
 // getg returns the address of the current goroutine's descriptor.
 func getg() unsafe.Pointer
-
-// slowGoid parses the goroutine id out of runtime.Stack (4-16 us).
-func slowGoid() int64 {
-	var buf [64]byte
-	n := runtime.Stack(buf[:], false)
-	b := buf[len("goroutine "):n]
-	i := bytes.IndexByte(b, ' ')
-	id, _ := strconv.ParseInt(string(b[:i]), 10, 64)
-	return id
-}
 
 // goidOffset is the offset of the goid field inside the runtime's g
 // struct, discovered at start-up by comparing against slowGoid on several
